@@ -5,7 +5,7 @@ R=$1; ID=$2; shift 2
 O=$R/$ID/out
 pkg=$(sed -n 1p $O/meta.txt | tr -d ' \r'); pkg=${pkg#./}; pkg=${pkg%/}
 cmd=$(sed -n 2p $O/meta.txt)
-args=${cmd#*-count=1}
+args=$(echo "${cmd#*-count=1}" | tr -d "'\"")
 # patch must not contain test files
 grep -q '^+++ b/.*_test.go' $O/patch.diff && echo "$ID: WARNING patch touches a test file"
 cd /verif
